@@ -768,6 +768,10 @@ impl Circuit
         Ok(())
     }
 
+    /// Verification hook: number of operations in this circuit
+    #[cfg(feature = "verif")]
+    pub fn verif_nr_ops(&self) -> usize { self.ops.len() }
+
     /// Verification hook: copy of the internal quantum state, if any
     #[cfg(feature = "verif")]
     pub fn verif_snapshot(&self) -> Option<crate::verif::Snapshot>
